@@ -140,13 +140,13 @@ def check_parser_side_sim(chk):
     mod = chk.repo.module('parser')
     func = mod.func('parse_script', 'C17.P')
     it = ParseInterp(chk.repo, mod, 'C17.P')
-    text = "include 'a.bare'\ninclude <b.bare>\n  include  'it\\'s here.bare'  \ninclude <sub/c d.bare>\nx = 1\ninclude <d.bare>\ninclude 'http://h.example/e.bare'\n"
+    text = "include 'a.bare'\ninclude <b.bare>\n  include  'it\\'s here.bare'  \ninclude <sub/c d.bare>\ninclude 'a.bare'\ninclude <b.bare>\nx = 1\ninclude <d.bare>\ninclude 'http://h.example/e.bare'\n"
     got = it.parse(func, text)
     if got[0] != 'ok':
         chk.bad('C17.P', mod, 'parse_script', 'include statements rejected', f'well-formed include statements are rejected: {got[1]}{got[2][:1]!r}', node=func)
         return False
     stmts = got[1].get('statements') if isinstance(got[1], dict) else None
-    want = [[('a.bare', False), ('b.bare', True), ("it's here.bare", False), ('sub/c d.bare', True)], None, [('d.bare', True), ('http://h.example/e.bare', False)]]
+    want = [[('a.bare', False), ('b.bare', True), ("it's here.bare", False), ('sub/c d.bare', True), ('a.bare', False), ('b.bare', True)], None, [('d.bare', True), ('http://h.example/e.bare', False)]]
     shape = []
     for s in stmts or []:
         if isinstance(s, dict) and 'include' in s:
@@ -158,7 +158,7 @@ def check_parser_side_sim(chk):
             shape.append(None)
     if shape != want:
         chk.bad('C17.P', mod, 'parse_script', f'includes parsed as {shape!r}'[:120],
-                f'evaluation of parse_script on seven include lines around an assignment gives {shape!r}; adjacent include lines merge into one statement in program order, a later '
+                f'evaluation of parse_script on seven include lines around an assignment gives {shape!r}; adjacent include lines merge into one statement in program order (a file included twice is included twice), a later '
                 f'include starts a new statement, <...> sets the system flag, quoted locations lose their quote escapes: {want!r}', node=func)
         return False
     chk.ok('C17.P', 'parse_script evaluated on quoted / system includes: adjacent lines merge in program order, separated ones do not, system flag from <...>, quote escapes removed', count=7)
